@@ -75,6 +75,28 @@ c08-concurrent-compilations-data-race, the report names the package-level
 variable; replay = the history again under the race detector);
 correspondence (op chist): the outputs of every step of real concurrent
 elements = the model's under a seeded schedule.
+(8) WIDTH SWEEP (Model/WidthTable.lean, harness sweep.go): the property
+quantifies over all programs, hence over all operand widths; the builders of
+compiler/circuits choose their construction by the width, one of them through a
+package-level table keyed by the width (multiplierArrayTresholds).  Theorems:
+the lookup BY KEY of the code as it is, the Karatsuba recursion it selects and
+what the harness observes of it are the same for all hand-over orders of the
+table; a lookup by the CLOSEST key (best-so-far loop over `range m`) is order
+independent iff all closest keys carry one value or ties are broken by a total
+order on the keys (general converse + witness: width 29 between the tuned
+widths 21 and 37).  Oracle: one operator per program (* / % + - six
+comparisons, & | ^ + select; uint / int; Yao / GMW) at a third of the widths
+1..130 per seed (all in the thorough tier), the powers of two and the boundary
+widths (midpoints between / edges of the runs of keys) of every integer-keyed
+package-level table of the compile path (fact int_tables), every program
+compiled >= 8 times in 8 child processes (fresh and long-lived Compilers); more
+than one output = failure c08-width-sweep-nondeterministic, confirmed alone in
+8 x 16 compilations, replay = the program.  A NEW or CHANGED map-range site
+focuses one more sweep (all widths 1..130, boundaries, 64 compilations each) on
+the operators whose builders reach the function holding the site (fact
+reached_from).  Correspondence (op mthr): the multiplier limits L for which
+Params.CircMultArrayTreshold = L gives the byte-identical circuit as the
+default parameters = multClass of the table read from the source.
 """
 import hashlib
 import json
@@ -122,7 +144,20 @@ THEOREMS = [
     "Mpc.C08_concurrent_history_solo_outputs",
     "Mpc.C08_shared_scratch_sequential_invisible",
     "Mpc.C08_shared_scratch_interleaving_dependent",
+    "Mpc.C08_multiplier_table_perm_invariant",
+    "Mpc.C08_lookup_needs_functional",
+    "Mpc.C08_nearest_key_perm_invariant",
+    "Mpc.C08_nearest_key_tie_order_dependent",
+    "Mpc.C08_nearest_key_tie_witness",
 ]
+
+# width sweep (harness sweep.go): operator groups and the builder names of compiler/circuits that make them.  A new
+# or changed map-range site focuses the sweep on the groups whose builders reach the function holding the site
+# (fact reached_from); a site that no builder reaches but the compile entry points do focuses it on all groups.
+SWEEP_OPS = ["mul", "div", "mod", "add", "sub", "lt", "le", "gt", "ge", "eq", "ne", "bits"]
+SWEEP_GROUPS = {"mul": ("Multiplier",), "div": ("Divider",), "add": ("Adder",), "sub": ("Subtractor",),
+                "cmp": ("Comparator",), "bits": ("Binary", "Logical", "MUX")}
+SWEEP_SIG = "c08-width-sweep-nondeterministic"
 
 # process-state histories (harness pstate.go): generator families and, per package of the compile path, the
 # families whose programs reach package-level state of that package beyond what every compilation reaches.
@@ -356,7 +391,7 @@ def check_facts(ctx, facts):
     import os
     if not isinstance(facts, dict) or not isinstance(facts.get("semantic"), dict):
         ctx.oblige("facts extracted with go/types from the compile path", False, str(facts)[:2000])
-        return
+        return []
     sem = facts["semantic"]
     ctx.oblige("go/types loaded the compile-path packages without type errors", not facts.get("type_errors"),
                json.dumps(facts.get("type_errors")))
@@ -399,6 +434,43 @@ def check_facts(ctx, facts):
     ctx.advise("`c.resetPackages()` written before `c.parse(` in compile / CompileSSA / Stream",
                facts.get("codegen_entries") or [], CODEGEN_ENTRIES)
     ctx.advise("bodies of Compiler.resetPackages and Package.SortedImports as written", facts.get("func_bodies") or {}, FUNC_BODIES)
+    # the new / changed sites as records (function, file, who reaches it): they focus the width sweep
+    return [m for m in sem.get("sites") or [] if [m.get(k) for k in SEM_KEYS] in new]
+
+
+def sweep_focus(new_sites):
+    """Operator groups of the width sweep for new / changed map-range sites: the groups whose builders (exported
+    functions of compiler/circuits) reach the function holding the site; `all` when none does."""
+    groups = set()
+    for m in new_sites:
+        names = [m.get("func_name") or ""] + list(m.get("reached_from") or [])
+        hit = {g for g, kws in SWEEP_GROUPS.items() for n in names if n.startswith("circuits.") for kw in kws if kw in n}
+        groups |= hit or {"all"}
+    return sorted(groups)
+
+
+def sweep_run(ctx, facts, seed, focus=None, tag="", prefix=""):
+    """Width sweep (harness sweep.go).  Returns the meta of the run."""
+    tables = ((facts or {}).get("semantic") or {}).get("int_tables") or []
+    tf = os.path.join(ctx.work, "int_tables.json")
+    json.dump(tables, open(tf, "w"))
+    extra = "facts=" + tf + (";focus=" + ",".join(focus) if focus else "")
+    ops, out, meta = ctx.run_hx("sweep", 8, seed=seed, extra_args=["-extra", extra], tag=tag,
+                                timeout=170 if ctx.tier == "quick" and not focus else 1500)
+    ctx.absorb_meta(meta, prefix=prefix)
+    ctx.coverage.setdefault("sweep_runs", []).append(
+        {k: meta.get(k) for k in ("sweep_programs", "sweep_widths", "sweep_widths_compiled", "sweep_processes",
+                                  "sweep_processes_ok", "sweep_int_tables", "sweep_ms", "sweep_children_ms", "sweep_mthr_ms",
+                                  "sweep_programs_with_different_outputs")} | {"seed": seed, "focus": focus or []})
+    ctx.oblige("all child processes of the width sweep (seed %d%s) returned results" % (seed, " focus " + ",".join(focus) if focus else ""),
+               meta.get("sweep_processes") is not None and meta.get("sweep_processes_ok") == meta.get("sweep_processes"),
+               json.dumps(meta.get("harness_log", ""))[:2000])
+    if os.path.exists(ops) and os.path.getsize(ops) > 0:
+        ctx.correspond("multiplier limits equivalent to the default parameters at every swept width = multClass of the "
+                       "width-indexed table read from the source (lookup by key, default 21, Karatsuba recursion) (seed %d)" % seed,
+                       ops, out)
+        distinct_ops(ctx, ops)
+    return meta
 
 
 def distinct_ops(ctx, ops):
@@ -418,7 +490,7 @@ def replay_request():
     except Exception:
         return None, None
     fl = doc.get("failure") or {}
-    if fl.get("sig") in ("c08-process-state-history", "c08-concurrent-compilations-data-race") and fl.get("replay_spec"):
+    if fl.get("sig") in ("c08-process-state-history", "c08-concurrent-compilations-data-race", SWEEP_SIG) and fl.get("replay_spec"):
         # finish() rewrites the replay file: hand the harness a copy
         cp = os.path.join(vlib.VERIF, ".work", "C08-replay-%d.json" % os.getpid())
         json.dump(doc, open(cp, "w"))
@@ -471,14 +543,30 @@ def run(ctx):
         if m.get("facts_error") or m.get("harness_rc"):
             ctx.oblige("facts extracted with go/types from the compile path", False,
                        m.get("facts_error") or m.get("harness_log", ""))
+            new_sites = []
         else:
-            check_facts(ctx, m.get("facts"))
+            new_sites = check_facts(ctx, m.get("facts"))
         # ---- --replay of a process-state history: exactly the recorded history and its reference, each in a
         # fresh process; a reproduced difference decides the run
         # the race-detector build of the harness (go build -race): one concurrent history of every pstate run and
         # the replay of a data-race report run in a child process of it
         racebin = ctx.build_hx(race=True)
-        rp, _ = replay_request()
+        rp, rdoc = replay_request()
+        if rp and (rdoc.get("failure") or {}).get("sig") == SWEEP_SIG:
+            # --replay of a width-sweep program: exactly the recorded program, the recorded number of fresh processes
+            # and compilations per process
+            _, _, rm = ctx.run_hx("sweep", 8, extra_args=["-extra", "replay=" + rp], tag="-replay", timeout=900)
+            ctx.absorb_meta(rm, prefix="replay_")
+            ctx.coverage["replayed_program"] = rm.get("replay") or rm.get("replay_error")
+            print("replayed program: %s" % json.dumps(rm.get("replay") or rm.get("replay_error"))[:1500])
+            os.remove(rp)
+            rp = None
+            if ctx.fails:
+                ctx.coverage["rule"] = "replay of one recorded width-sweep program (the full check was not run)"
+                return ctx.finish("Replay: the recorded program was compiled again in the recorded number of fresh "
+                                  "processes, the recorded number of times in each (up to 3 rounds: which outputs appear "
+                                  "is the runtime's choice); the compilations still give different outputs.")
+            print("the replayed program no longer gives different outputs; running the full check")
         if rp:
             _, _, rm = ctx.run_hx("pstate", 8, extra_args=["-extra", "replay=" + rp + (";racebin=" + racebin if racebin else "")],
                                   tag="-replay", timeout=600)
@@ -493,6 +581,29 @@ def run(ctx):
                                   "re-run up to 8 times: the schedule is the runtime's; a data-race report is replayed by "
                                   "running the recorded history again in a child built with the race detector).")
             print("the replayed history no longer gives a different output; running the full check")
+        # ---- width sweep: one operator per program over the operand widths; then, for a new / changed map-range
+        # site, the focused sweep over the operators whose builders reach the function holding the site
+        sm = sweep_run(ctx, m.get("facts"), ctx.seed)
+        cs = ctx.coverage.get("counters", {})
+        nprog = cs.get("sweep_programs", 0)
+        ctx.oblige("width sweep: >= 600 programs, >= 95% compile, every operator, both targets and signednesses, widths of "
+                   "the range 1..130, powers of two and table boundaries, every program >= 8 compilations in 8 processes",
+                   nprog >= 600 and 20 * cs.get("sweep_programs_compiled", 0) >= 19 * nprog and
+                   all(cs.get("sweep_programs_op_" + op, 0) > 0 for op in SWEEP_OPS) and
+                   all(cs.get(k, 0) > 0 for k in ("sweep_programs_variant_1", "sweep_programs_variant_2", "sweep_programs_signed",
+                                                  "sweep_programs_unsigned", "sweep_widths_range-1-130", "sweep_widths_power-of-two")) and
+                   (not sm.get("sweep_int_tables") or cs.get("sweep_widths_table-midpoint", 0) > 0) and
+                   cs.get("sweep_programs_with_8plus_compilations_in_8plus_processes", 0) == nprog,
+                   json.dumps({k: v for k, v in cs.items() if k.startswith("sweep_") and "compile_ms" not in k}))
+        ctx.oblige("model ops of kind mthr were produced (multiplier limits at the swept widths, non-trivial classes)",
+                   cs.get("op_mthr", 0) >= 20 and cs.get("op_mthr_nontrivial_class", 0) >= 10 and cs.get("op_mthr_gmw", 0) > 0,
+                   json.dumps({k: v for k, v in cs.items() if k.startswith("op_mthr")}))
+        ctx.coverage["new_map_range_sites"] = [{k: s.get(k) for k in ("pkg", "func_name", "file", "line", "kind", "reachable",
+                                                                      "reached_from")} for s in new_sites]
+        if new_sites and not ctx.fails:
+            fg = sweep_focus(new_sites)
+            ctx.coverage["sweep_focus"] = fg
+            sweep_run(ctx, m.get("facts"), ctx.seed + 7, focus=fg, tag="-focus", prefix="focus_")
         # ---- process-state histories over sibling groups (every history in its own process)
         pm = pstate_run(ctx, ctx.seed, racebin=racebin)
         c0 = ctx.coverage.get("counters", {})
@@ -631,13 +742,26 @@ def run(ctx):
         "struct fields, array indexing with modular offsets, slices, len, string bytes, shifts - several hundred int64 "
         "constants per program, siblings differ in one of offset / strings / slice bounds / rounds / added constants; one "
         "concurrent history (victims of the cheap groups, const-rich programs; 3-4 goroutines) in a child built with "
-        "go build -race. distinct = distinct dc/init/hist/phist/ahist/chist op lines")
+        "go build -race. Width sweep: one operator per program `func main(a, b T) R { return a OP b }` for * / % + - < <= > "
+        ">= == != and one program with & | ^ and a select; T = uint<w> / int<w> (quick tier: one signedness per width and "
+        "operator, alternating with the seed); variants prune and prune+GMW; widths: quick tier the third of 1..130 with "
+        "w % 3 == seed % 3 (VERIF_SEED=1,2,3 cover all), thorough tier all of 1..130; in every tier the powers of two "
+        "(<= 512 quick, <= 1024 thorough) and the midpoints (floor, ceiling) between consecutive runs of keys of every "
+        "package-level table of the compile path keyed by int / types.Size (<= 520 bits quick), thorough tier also the edges "
+        "of the runs (<= 1024 bits); programs above the tier's estimated compile-time cap (160 ms / 400 ms; measured on the unchanged tree: "
+        "GMW dividers ~1 s at 64 bits, ~5 s at 130) are left out; every program compiled in 8 child processes (GOMAXPROCS / "
+        "GOGC varied) 2 / 1 times each by cost (thorough 4 / 2 / 1; focused sweep 8 / 4 / 2), alternately fresh and "
+        "long-lived Compiler; measured on a tree with a two-outcome map-order dependence (seeded change S108): the two "
+        "outcomes are close to equally likely per compilation, 8 compilations miss it with probability 2^-7. "
+        "distinct = distinct dc/init/hist/phist/ahist/chist/mthr op lines")
     ctx.trusted += vlib.DEFAULT_TRUSTED + [
         "go/parser + go/types fact extractor in harness/cmd/c08/facts.go (source importer for the standard library)",
         "the SSA-listing canonicaliser/classifier in harness/cmd/c08/compile.go (names the kind of a difference in the report; every difference is a violation)",
         "Go runtime: per-process / per-iteration map iteration randomisation actually varies the hand-over order",
         "Go race detector (go build -race) and the ELF symbol table of the race build (names the package-level variable an "
         "access address lies in)",
+        "width sweep: two multiplier limits with different Karatsuba recursions give different circuit bytes (the mthr "
+        "correspondence would otherwise report a larger class than the model)",
     ]
     ctx.assumptions += [
         "history independence is proved for the model in which resetPackages empties everything a compilation "
@@ -682,6 +806,15 @@ def run(ctx):
         "make-initialised variables) and a program to its function-label sequence; circuit bytes are compared by the "
         "oracle only",
         "the listing's anonymous-value numbering inside initialiser blocks is modelled for `make` initialisers only",
+        "width sweep: operand widths outside 1..130, the powers of two up to 1024 and the table boundaries under the "
+        "compile-time cap are not compiled repeatedly (GMW dividers above ~27 bits quick / ~41 bits thorough, Yao "
+        "dividers above ~170 / ~270 bits, Yao multipliers above ~370 / ~650 bits); operators are swept one per program with both operands of one width - an order "
+        "dependence that needs mixed widths or a combination of operators is left to the other generators; an order "
+        "dependence whose outcomes are far from equally likely (p < 0.3 per process) can be missed by 8 compilations",
+        "C08_multiplier_table_perm_invariant is about the lookup by key with default 21 and the recursion of "
+        "NewKaratsubaMultiplier (Model/WidthTable.lean); it transfers to the code through the mthr correspondence at the "
+        "swept widths (limits 8..23) and the map-range site fact (no range over the table); the gates inside the array "
+        "multipliers, adders and subtractors are C07's",
     ]
     return ctx.finish(
         "Theorems (Props/C08.lean): every map-range site of the compile path is permutation invariant - collect-then-"
@@ -707,4 +840,10 @@ def run(ctx):
         "C08_concurrent_history_solo_outputs, the scratch-cell theorems) with the chist correspondence, compared with "
         "the sequential histories and the program alone in a fresh process, one of them under the race detector; "
         "any difference is a violation (no known finding is tolerated any more); the replay holds the program and both "
-        "SSA listings.")
+        "SSA listings.  WIDTH SWEEP: one operator per program over the operand widths (range 1..130 by thirds, powers of "
+        "two, boundary widths of the integer-keyed tables of the compile path), every program compiled >= 8 times in 8 "
+        "processes, focused on the builders that reach a new / changed map-range site; theorems "
+        "C08_multiplier_table_perm_invariant (lookup by key: order independent), C08_nearest_key_perm_invariant / "
+        "C08_nearest_key_tie_order_dependent / C08_nearest_key_tie_witness (lookup by the closest key: order independent "
+        "iff all closest keys carry one value or ties are broken by a total order); mthr correspondence of the table "
+        "lookup + Karatsuba recursion model.")
